@@ -1010,3 +1010,46 @@ def r_coincidence_both(cx):
                           "the longitudes" if which == {0} else "the latitudes" if which == {1} else "neither coordinate"),
                       cx.where(f.d["span"]))
     cx.count("R-COINCIDENCE-BOTH", "shortcuts", n)
+
+
+@rule("R-AZIMUTH-ATAN2", ["C06"])
+def r_azimuth_atan2(cx):
+    """An azimuth ranges over the full circle: the azimuths the geodesic routines return (element 2 of geodesic_fwd's
+    result, elements 0 and 1 of geodesic_inv's) are two-argument arctangents of their sine-like and cosine-like parts.
+    `(s / c).atan()` only covers half of the circle - every line heading into the other half gets its azimuth turned by
+    180 degrees."""
+    import elems as E
+    import guards
+    n = 0
+    for fn, idxs in (("ellipsoid::geodesics::Geodesics::geodesic_fwd", (2,)), ("ellipsoid::geodesics::Geodesics::geodesic_inv", (0, 1))):
+        if not cx.f.has_fn(fn):
+            cx.ob("R-AZIMUTH-ATAN2", fn, False, "anchor-missing: %s" % fn)
+            continue
+        f = cx.f.fn(fn)
+        rt = E.return_term(f)
+        raws = []
+        if rt is not None:
+            mir.walk(rt, lambda y: (raws.append(y) if y[0] == "call" and isinstance(y[1], str) and y[1].endswith("Coor4D::raw") and
+                                    y not in raws else None) or True)
+        for r in raws:
+            for k in idxs:
+                if k >= len(r[2]):
+                    continue
+                n += 1
+                v = mir.strip_refs(r[2][k])
+                # allow a normalisation around it (adding / subtracting constants, rem_euclid ...)
+                for _ in range(4):
+                    if v[0] == "bin" and v[1] in ("Add", "Sub") and _fnum(mir.strip_refs(v[3])) is not None:
+                        v = mir.strip_refs(v[2])
+                    elif v[0] == "call" and isinstance(v[1], str) and v[1].rsplit("::", 1)[-1] in ("rem_euclid", "to_degrees", "to_radians") and v[2]:
+                        v = mir.strip_refs(v[2][0])
+                    else:
+                        break
+                kind = v[1].rsplit("::", 1)[-1] if v[0] == "call" and isinstance(v[1], str) else v[0]
+                ok = kind == "atan2"
+                cx.ob("R-AZIMUTH-ATAN2", "%s/elem%d" % (fn.rsplit("::", 1)[-1], k), ok,
+                      "%s: element %d is an atan2" % (fn.rsplit("::", 1)[-1], k) if ok else
+                      "%s returns an azimuth (element %d) computed by `%s`, not by a two-argument arctangent: lines heading "
+                      "into the other half of the circle get an azimuth that is off by 180 degrees" % (
+                          fn.rsplit("::", 1)[-1], k, kind), cx.where(f.d["span"]))
+    cx.count("R-AZIMUTH-ATAN2", "azimuths", n)
